@@ -69,7 +69,7 @@ func newState(data []byte, strict bool) *state {
 func (s *state) scanKeyValue(data []byte, el *fix.KeyValue) error {
 	q := bytes.Join([][]byte{[]byte(el.Key), {'='}}, nil)
 	var keyIndex int
-	if bytes.Equal(data[:len(q)], q) {
+	if bytes.HasPrefix(data, q) {
 		keyIndex = 0
 	} else {
 		ks := bytes.Join([][]byte{fix.Delimiter, []byte(el.Key), {'='}}, nil)
